@@ -116,6 +116,22 @@ def main():
     sc("max_matrix_card_value", mc, "MAX_MATRIX_CARD_VALUE")
     m = re.search(r"let\s+mut\s+pad_data\s*=\s*\[0_u8;\s*(\w+)\]", winner)
     scalars["wrath_drop"] = parse_int(m.group(1)) if m else None
+    # inline literals of modelled decisions (threshold, marker masks, ASCII offset, RC4 state size)
+    wenc = strip_comments(read("src/wrath_header/encrypt.rs"))
+    wdec = strip_comments(read("src/wrath_header/decrypt.rs"))
+    rc4 = strip_comments(read("src/rc4.rs"))
+    def lit(src, pattern):
+        mm = re.search(pattern, src)
+        try:
+            return parse_int(mm.group(1)) if mm else None
+        except ValueError:
+            return None
+    scalars["wrath_large_threshold"] = lit(wenc, r"if\s+size\s*>\s*(\w+)\s*\{")
+    scalars["wrath_marker_set"] = lit(wenc, r"fn\s+set_large_header\s*\([^)]*\)\s*->\s*u8\s*\{\s*v\s*\|\s*(\w+)")
+    scalars["wrath_marker_clear"] = lit(wdec, r"fn\s+clear_large_header\s*\([^)]*\)\s*->\s*u8\s*\{\s*v\s*&\s*(\w+)")
+    scalars["wrath_marker_test"] = lit(wdec, r"fn\s+large_header\s*\([^)]*\)\s*->\s*bool\s*\{\s*v\s*&\s*(\w+)\s*!=\s*0")
+    scalars["pin_ascii_offset"] = lit(pin, r"\*b\s*\+=\s*(\w+)\s*;")
+    scalars["rc4_state_size"] = lit(rc4, r"state\s*:\s*\[u8;\s*(\w+)\]")
 
     missing = []
     out = ["(* GENERATED by tools/extract_consts.py from the Rust sources under /repo/src. Do not edit. *)",
